@@ -462,8 +462,21 @@ func predicates(client *resolve.LocalClient, g *resolve.Graph, st *modelStats) (
 								continue
 							}
 							if isRange(r.Version) {
-								if c, err := semver.Maven.ParseConstraint(r.Version); err == nil && !c.Match(expected) {
-									explained = true
+								if c, err := semver.Maven.ParseConstraint(r.Version); err == nil {
+									if !c.Match(expected) {
+										explained = true
+									}
+									// ... or, met first, it made the highest listed version
+									// inside it (and inside the ranges that remain) the choice
+									top := ""
+									for _, v := range listed {
+										if inAll(v.Version) && c.Match(v.Version) && (top == "" || semver.Maven.Compare(v.Version, top) > 0) {
+											top = v.Version
+										}
+									}
+									if top != "" && semver.Maven.Compare(top, ver[k]) == 0 {
+										explained = true
+									}
 								}
 							} else if semver.Maven.Compare(r.Version, ver[k]) == 0 {
 								explained = true
